@@ -61,7 +61,44 @@ def shards(tier):
     out.append({"kind": "counters", "tier": tier})
     out.append({"kind": "unsigned-decode", "tier": tier})
     out.append({"kind": "ip", "tier": tier})
+    out.append({"kind": "client", "tier": tier})
     return out
+
+
+def run_client(acc):
+    """the same boundary values through the Client: fetched from the reference
+    agent (get), and written to it and read back from its answer (set) - the
+    value the caller holds, the value on the wire and the value in the agent's
+    database must be one and the same"""
+    from .. import ops
+    from ..ref import agent as ragent
+
+    OID = (1, 3, 6, 1, 4, 1, 99, 1, 0)
+    vals = []
+    for kind in ("c32", "g32", "tt"):
+        vals += [(kind, v) for v in (0, 1, 127, 128, 2**31 - 1, 2**31, 2**31 + 1, 2**32 - 2, 2**32 - 1)]
+    vals += [("c64", v) for v in (0, 1, 2**32, 2**63 - 1, 2**63, 2**63 + 1, 2**64 - 2, 2**64 - 1)]
+    vals += [("ip", bytes(4)), ("ip", b"\xff\xff\xff\xff"), ("ip", bytes([127, 128, 255, 0])), ("int", -(2**31)), ("int", 2**31 - 1), ("int", -1)]
+    from puresnmp.credentials import V2C
+
+    for value in vals:
+        for opname in ("get", "set"):
+            ag = ragent.Agent({OID: value if opname == "get" else ("int", 0)})
+            client, sender = world.make_client(V2C("public"), ag.handle)
+            result, exc = ops.run_op(client, ("get", OID) if opname == "get" else ("set", OID, value))
+            facts = {"family": "through the Client", "op": opname, "value": value, "exception": ops.exc_sig(exc)}
+            bad = None
+            if exc is not None:
+                bad = "client-%s-of-an-in-range-value-raised" % opname
+            elif result != value:
+                bad = "client-%s-returned-another-value" % opname
+            elif opname == "set" and ag.db.get(OID) != value:
+                bad = "client-set-delivered-another-value"
+            acc.count(evaluations=1, nontrivial=1)
+            acc.outcome("client-ok" if bad is None else bad)
+            if bad:
+                acc.violation({"kind": bad, "detail": {**facts, "got": result, "agent_db": ag.db.get(OID)}, "facts": facts, "case": {"kind": "client"}})
+    acc.sample({"family": "boundary values through Client.get / Client.set", "values": len(vals)})
 
 
 def tt_range(lo, hi, acc, first_bad):
@@ -115,6 +152,8 @@ def run_shard(params, acc):
         run_unsigned(acc)
     elif kind == "ip":
         run_ip(acc)
+    elif kind == "client":
+        run_client(acc)
 
 
 def counter_inputs():
@@ -247,7 +286,9 @@ def replay(case):
         first_bad = []
         tt_range(case["n"], case["n"] + 1, acc, first_bad)
         return [{"kind": "timeticks-" + w, "detail": {"n": n, "got": g}} for w, n, g in first_bad]
-    if case["kind"] in ("counter", "roundtrip"):
+    if case["kind"] == "client":
+        run_client(acc)
+    elif case["kind"] in ("counter", "roundtrip"):
         run_counters(acc)
     elif case["kind"] == "unsigned":
         run_unsigned(acc)
